@@ -235,7 +235,8 @@ theorem disconnectByRoomSessionId_sub (a : Acc) (rs : String) (b req : Nat) (hi 
           · exact (s1.trans s2).trans (by intro t x' hx'; simp only [hubf] at hx'; exact s3 t x' hx')
           · exact (s1.trans s2).trans s3
 
-theorem pub_ne_empty (s : Nat) : "pub:" ++ toString s ≠ "" := by
+theorem pub_ne_empty (s : Nat) : pubRs s ≠ "" := by
+  unfold pubRs
   intro h
   have := congrArg String.length h
   simp [String.length_append] at this
@@ -276,11 +277,11 @@ theorem processAlready_inv (a : Acc) (s : Nat) (x : Sess) (rsid : String) (hi : 
     (hx : a.h.sess s = some x) (hroom : x.room.isSome = true) : Inv (processAlready a s x rsid).h := by
   unfold processAlready
   simp only []
-  have hne : (if rsid = "" then "pub:" ++ toString s else rsid) ≠ "" := by
+  have hne : (if rsid = "" then pubRs s else rsid) ≠ "" := by
     split
     · exact pub_ne_empty s
     · assumption
-  generalize (if rsid = "" then "pub:" ++ toString s else rsid) = rs at hne ⊢
+  generalize (if rsid = "" then pubRs s else rsid) = rs at hne ⊢
   have hh : Inv (if x.roomSess = rs then a.h else setSess (rsSet a.h s rs) s (some { x with roomSess := rs })) := by
     by_cases he : x.roomSess = rs
     · simp only [he, if_true]; exact hi
